@@ -25,7 +25,7 @@ def cases(desc):
         yield gen_case(rng)
 
 
-def dim_labels(rng, kind, allow_empty):
+def dim_labels(rng, kind, allow_empty, off=0):
     k = kind
     if kind == 'if':
         k = rng.choice('if')
@@ -35,12 +35,15 @@ def dim_labels(rng, kind, allow_empty):
         pool = [x / 2.0 for x in range(0, 13)] if kind == 'if' else [x / 2.0 for x in range(0, 7)]
     else:
         pool = list('abcdefg')
+    if off and k in 'if':
+        # labels beyond 2**24 (dates written as integers, ...): exact in int64 and float64 but not in a 32-bit type
+        pool = [off + x for x in pool]
     n = rng.choice([0] if allow_empty and rng.random() < 0.2 else [1, 2, 2, 3, 3, 4])
     lab = gen.reorder(rng, sorted(rng.sample(pool, n)), rng.choice(['inc', 'dec', 'shuf']))
     return lab, k
 
 
-def gen_input(rng, kinds, allow_empty, base=None):
+def gen_input(rng, kinds, allow_empty, base=None, off=0):
     nd = rng.randint(0, 3)
     dims = rng.sample(POOL, nd)
     labs, ks = [], []
@@ -48,7 +51,7 @@ def gen_input(rng, kinds, allow_empty, base=None):
         if base is not None and d in base:
             l, k = base[d]
         else:
-            l, k = dim_labels(rng, kinds[d], allow_empty)
+            l, k = dim_labels(rng, kinds[d], allow_empty, off)
         labs.append(l)
         ks.append(k)
     sp = {"dims": dims, "labels": labs, "kinds": ks,
@@ -64,6 +67,7 @@ def gen_input(rng, kinds, allow_empty, base=None):
 def gen_case(rng):
     kinds = {d: rng.choice(['i', 'f', 's', 'if']) for d in POOL}
     allow_empty = rng.random() < 0.3
+    off = 20200000 if rng.random() < 0.15 else 0
     n = rng.randint(1, 4)
     inputs = []
     for i in range(n):
@@ -72,13 +76,13 @@ def gen_case(rng):
             base = {}
             vs = {}
             for name in rng.sample(['u', 'v', 'q'], rng.randint(1, 2)):
-                sp = gen_input(rng, kinds, allow_empty, base)
+                sp = gen_input(rng, kinds, allow_empty, base, off)
                 for d, l, k in zip(sp["dims"], sp["labels"], sp["kinds"]):
                     base[d] = (l, k)
                 vs[name] = sp
             inputs.append({"ds": vs})
         else:
-            inputs.append(gen_input(rng, kinds, allow_empty))
+            inputs.append(gen_input(rng, kinds, allow_empty, off=off))
     alldims = []
     for inp in inputs:
         for sp in (inp["ds"].values() if "ds" in inp else [inp]):
